@@ -11,6 +11,7 @@
 //!   line ver infodefs fmtdefs ns rec ftab valid   a whole record: written line, eager and lazy re-read, spans
 //!   ltxt ver infodefs fmtdefs ns hextext ftab     arbitrary line text through both readers (see c09_line.rs)
 //!   multi ver infodefs fmtdefs ns rec^rec^.. ftab  records of one file read into reused buffers vs the single-line model
+//!   eloop ver infodefs fmtdefs ns hextext ftab     arbitrary bytes through read_record_buf into ONE RecordBuf, going on after Err, vs NV.Vcf.EagerLoop
 //!   lzb  ver infodefs fmtdefs ns hextext ftab      arbitrary bytes through read_record + every accessor vs NV.Vcf.LazyRec
 //!   hw spec valid / hp hexlines                   headers against NV.Vcf.Header (see c09_hdr.rs)
 //! Implementation-only oracles (obs "-"):
@@ -529,6 +530,7 @@ fn run(c: &Case) -> Obs {
         "ltxt" => line::run_ltxt(c),
         "multi" => line::run_multi(c),
         "lzb" => line::run_lzb(c),
+        "eloop" => line::run_eloop(c),
         "file" => file::run_file(c),
         "ftxt" => file::run_ftxt(c),
         "rec" => rec::run_rec(c),
@@ -565,6 +567,8 @@ fn generate(rng: &mut Rng, tier: &str, w: &mut CaseWriter) {
         file::gen_file(rng, w);
     }
     file::gen_ftxt(rng, w, if thorough { 3000 } else { 250 });
+    // the eager loop, every call kept, against NV.Vcf.EagerLoop (arbitrary bytes)
+    line::gen_eloop(rng, w, if thorough { 4000 } else { 400 });
 }
 
 fn main() {
